@@ -19,7 +19,8 @@ META = {
             "data unchanged, and likewise on all 14 single flavours; (4) the component along any direction orthogonal to the "
             "selection vanishes (checked with the remaining evolution rows after selecting a subset); (5) the block is relabelled "
             "with the full flavour basis and the input blocks are not modified; (6) pid_to_flavor / evol_to_flavor return the "
-            "unit vector of the pid / the row of the evolution rotation for the label.",
+            "unit vector of the pid / the row of the evolution rotation for the label."
+            " Several blocks with different flavour lists in one call are each projected by their own list.",
     "note": "",
     "technique": "partial evaluation with symbolic vectors + polynomial identity testing over F_p",
     "engine": "sa",
